@@ -627,6 +627,12 @@ pub fn c03(tier: &str) -> Vec<Family> {
         }
     }
     fams.push(Family::new("small_sinks", TAGS_DELIVERY_SINKS, sc_k).cap(cap));
+    // Ports carrying the unit type and input / replier methods without arguments (a separate
+    // bench with its own expected figures; on the single-threaded executor under every pick order).
+    let trivial = Arc::new(BenchSpec::new(vec![NodeSpec::new("A", 1)]));
+    let sc_u: Vec<Scenario> = (1..=3u32).map(|r| scn(format!("unit_ports/rounds{}", r), &trivial, vec![Cmd::UnitBench { rounds: r }])).collect();
+    fams.push(Family::new("unit_ports", &["api_panic"], sc_u.clone()).cap(cap));
+    fams.push(Family::new("unit_ports_mt2", &["api_panic"], sc_u).uncontrolled(2, 3));
 
     // Scheduler-originated batches: k same-time events from one origin into a
     // mailbox of capacity c (the compound future has to wait for space).
